@@ -127,7 +127,7 @@ Proof.
     - apply Hrt. intros. apply (hvr_writes {| rc_url_key := u; rc_start := a; rc_end := b; rc_cc_req := parse_cc (q_hdr q);
                  rc_stored := e; rc_fresh := _; rc_refs := refs; rc_ref_index := i; rc_no_stale := must |}). }
   unfold round_trip. fold u. destruct (negb _).
-  - unfold handle_unrecognized_method; constructor. intros [|r]; [constructor|].
+  - unfold handle_unrecognized_method; destruct (req_only_if_cached _); [constructor|]; constructor. intros [|r]; [constructor|].
     destruct (_ && _); [|constructor].
     unfold get_refs_clean; constructor; intros ans. apply invalidate_cache_writes; constructor.
   - unfold get_refs_clean; constructor; intros ans.
